@@ -6,8 +6,9 @@ audit lists per theorem.
 import Std.Tactic.BVDecide
 import SuccinctlyVerif.Spec.Bits
 import SuccinctlyVerif.Model.Words
+import SuccinctlyVerif.Proof.KernelsList
 namespace SV.Kernels
-open SV
+open SV SV.KList
 
 /-! ### popcount -/
 
@@ -88,5 +89,113 @@ theorem selectInByteTable_eq (b : BitVec 8) (k : Nat) : selectInByteTable b k = 
     have h1 : (b.toNat * 8 + k) / 8 = b.toNat := by omega
     have h2 : (b.toNat * 8 + k) % 8 = k := by omega
     rw [h1, h2, BitVec.ofNat_toNat, BitVec.setWidth_eq]
+
+/-! ### word bits, trailing zeros, the CTZ select loop -/
+
+@[simp] theorem wordBits_length (x : BitVec 64) : (wordBits x).length = 64 := by simp [wordBits]
+
+theorem wordBits_getElem? (x : BitVec 64) (j : Nat) :
+    (wordBits x)[j]? = if j < 64 then some (x.getLsbD j) else none := by
+  unfold wordBits
+  rw [List.getElem?_map]
+  by_cases h : j < 64
+  · simp [h]
+  · simp [h]
+
+theorem wordBits_count_zero (x : BitVec 64) (h : ∀ j, j < 64 → x.getLsbD j = false) (k : Nat) :
+    selectInWordSpec x k = 64 := by
+  unfold selectInWordSpec
+  rw [selectB_none_of_count_le]; rfl
+  have : (wordBits x).count true = 0 := by
+    rw [List.count_eq_zero]
+    intro hm
+    obtain ⟨j, hj, he⟩ := List.getElem_of_mem hm
+    have := wordBits_getElem? x j
+    rw [List.getElem?_eq_getElem hj, he] at this
+    simp only [wordBits_length] at hj
+    rw [if_pos hj, h j hj] at this
+    cases this
+  omega
+
+theorem selectInWordSpec_zero (k : Nat) : selectInWordSpec (0 : BitVec 64) k = 64 :=
+  wordBits_count_zero _ (by simp) k
+
+theorem tz_lt (x : BitVec 64) (hx : x ≠ 0) : tz x < 64 := by
+  have := (BitVec.ctz_lt_iff_ne_zero (x := x)).2 hx
+  unfold tz
+  simpa [BitVec.lt_def] using this
+
+theorem wordBits_first (x : BitVec 64) (hx : x ≠ 0) :
+    (∀ j, j < tz x → (wordBits x)[j]? = some false) ∧ (wordBits x)[tz x]? = some true := by
+  have hlt := tz_lt x hx
+  constructor
+  · intro j hj
+    rw [wordBits_getElem?, if_pos (by omega)]
+    exact congrArg some (BitVec.getLsbD_false_of_lt_ctz hj)
+  · rw [wordBits_getElem?, if_pos hlt]
+    exact congrArg some (BitVec.getLsbD_true_ctz_of_ne_zero hx)
+
+/-- `trailing_zeros` is the position of the first set bit (64 for the zero word). -/
+theorem tz_eq (x : BitVec 64) : tz x = (selectB true (wordBits x) 0).getD 64 := by
+  by_cases hx : x = 0
+  · subst hx
+    have := selectInWordSpec_zero 0
+    unfold selectInWordSpec at this
+    rw [this]; decide +kernel
+  · obtain ⟨h1, h2⟩ := wordBits_first x hx
+    rw [selectB_zero_of_first _ _ h1 h2]; rfl
+
+theorem clear_lowest (x : BitVec 64) (hx : x ≠ 0) :
+    x &&& (x - 1) = x &&& ~~~(1#64 <<< x.ctz) := by
+  bv_decide
+
+theorem wordBits_clear_lowest (x : BitVec 64) (hx : x ≠ 0) :
+    wordBits (x &&& (x - 1)) = (wordBits x).set (tz x) false := by
+  have hlt := tz_lt x hx
+  apply List.ext_getElem?; intro j
+  rw [clear_lowest x hx, wordBits_getElem?, List.getElem?_set, wordBits_length, wordBits_getElem?]
+  by_cases hj : j < 64
+  · simp only [hj, if_true]
+    by_cases hc : tz x = j
+    · subst hc
+      have h' : x.ctz.toNat < 64 := hlt
+      simp [tz, BitVec.shiftLeft_eq', h']
+    · simp only [hc, if_false]
+      have : x.ctz.toNat ≠ j := hc
+      simp [BitVec.shiftLeft_eq']
+      intro _; omega
+  · simp only [hj, if_false]
+    split <;> simp_all
+
+theorem popcount_clear_lowest (x : BitVec 64) (hx : x ≠ 0) :
+    popcount (x &&& (x - 1)) + 1 = popcount x := by
+  unfold popcount
+  rw [wordBits_clear_lowest x hx]
+  exact count_set_first _ _ (wordBits_first x hx).2
+
+theorem selectInWordSpec_clear_lowest (x : BitVec 64) (hx : x ≠ 0) (k : Nat) :
+    selectInWordSpec (x &&& (x - 1)) k = selectInWordSpec x (k + 1) := by
+  unfold selectInWordSpec
+  obtain ⟨h1, h2⟩ := wordBits_first x hx
+  rw [wordBits_clear_lowest x hx, selectB_succ_of_first _ _ k h1 h2]
+
+theorem selectCtzLoop_eq (fuel : Nat) (val : BitVec 64) (rem : Nat) (h : popcount val < fuel) :
+    selectCtzLoop fuel val rem = selectInWordSpec val rem := by
+  induction fuel generalizing val rem with
+  | zero => omega
+  | succ fuel ih =>
+    unfold selectCtzLoop
+    by_cases hv : val = 0
+    · subst hv; rw [if_pos rfl]; exact (selectInWordSpec_zero rem).symm
+    · rw [if_neg hv]
+      cases rem with
+      | zero => simp [tz_eq, selectInWordSpec]
+      | succ rem =>
+        have hp := popcount_clear_lowest val hv
+        rw [if_neg (by omega), Nat.add_sub_cancel, ih _ _ (by omega),
+          selectInWordSpec_clear_lowest val hv]
+
+theorem selectCtz_eq (x : BitVec 64) (k : Nat) : selectCtz x k = selectInWordSpec x k :=
+  selectCtzLoop_eq 65 x k (by have := popcount_le x; omega)
 
 end SV.Kernels
